@@ -18,7 +18,7 @@ ID = "C14"
 LEVEL = "exploration"
 ENGINE = "opmachine"
 
-TIERS = {"quick": {"runs": 320, "budget": 75.0, "cap": 120.0},
+TIERS = {"quick": {"runs": 800, "budget": 75.0, "cap": 120.0},
          "thorough": {"runs": 200000, "budget": 900.0, "cap": 300.0}}
 
 METHODS = ["tempo", "mean_field", "pt_tebd", "pt_tempo", "gibbs"]
